@@ -390,9 +390,9 @@ pub fn run(tier: Tier, seed: u64) -> i32 {
     let mut rep = Report::new("C16", tier, seed);
     rep.rule = "function level: Anchor calculate_transfer_fee_{excluded,included}_amount (InterfaceAccount<Mint> over a real Token-2022 mint buffer with TransferFeeConfig and neighbouring extensions) and the Pinocchio copies (AccountInfo over a loader-format buffer, own TLV parser), all fee configs (0..=10000 bp, max fee 0..u64::MAX, older/newer epoch around the switch) x hostile amounts: excluded.amount + fee == amount, fee == what spl-token-2022's own TransferFee::calculate_fee withholds for the epoch fee chosen by get_epoch_fee, included(y) delivers >= y and included(y)-1 does not, reported fee fields, round trip, Anchor == Pinocchio. instruction level (Token-2022 pools with fees on A, B or both; real Token-2022 processor): swaps - vault receives >= curve input (hook trace), vault pays exactly the curve output, trader's request is minimal, within amount/maximum, withheld amounts equal the token program's, Traded event equals the amounts moved, and for a third of them the other-amount threshold is probed on clones (equal to what the trader receives/pays: accepted; one unit stricter: refused); increase/decrease/by-amounts - vault receives >= exact deposit, pays exactly the exact withdrawal, maxima/minima apply to what the owner pays/receives (probed), liquidity events equal the amounts moved. distinct = (fee class, max class, amount magnitude, epoch side) and (instruction, fee on in/out, partial)".into();
     rep.assumptions = vec!["spl-token-2022 8.0.1's TransferFee::calculate_fee / get_epoch_fee are the ground truth for what the token program withholds".into(), "reposition and two-hop on fee mints are covered through C17 / C12 / C18, not here".into()];
-    let n = tier.pick(1_500_000, 150_000_000);
+    let n = tier.pick(6_000_000, 150_000_000);
     let mut acc = function_level(seed, n);
-    let per_shard = tier.pick(14, 1400);
+    let per_shard = tier.pick(56, 1400);
     let acc2 = run_histories(
         seed ^ 0x16,
         per_shard,
